@@ -222,29 +222,51 @@ func genEntry(rng *rand.Rand, path util.FullPath, nchunks int) *filer.Entry {
 	return e
 }
 
-// expectedPb is the protobuf form the entry must read back as: chunk ids in canonical
-// string form (object forms cleared), octet-stream mime modelled as "" (the wrapper drops it).
-func expectedPb(e *filer.Entry) *filer_pb.Entry {
-	m := proto.Clone(e.ToProtoEntry()).(*filer_pb.Entry)
-	for _, c := range m.Chunks {
+// copyEntry is a deep copy made field by field by the harness (none of the conversion
+// functions under test take part in building what the oracle expects).
+func copyEntry(e *filer.Entry) *filer.Entry {
+	c := &filer.Entry{FullPath: e.FullPath, Attr: e.Attr, HardLinkCounter: e.HardLinkCounter}
+	c.GroupNames = append([]string(nil), e.GroupNames...)
+	c.Md5 = append([]byte(nil), e.Md5...)
+	if e.Extended != nil {
+		c.Extended = make(map[string][]byte, len(e.Extended))
+		for k, v := range e.Extended {
+			c.Extended[k] = append([]byte(nil), v...)
+		}
+	}
+	for _, ch := range e.Chunks {
+		c.Chunks = append(c.Chunks, proto.Clone(ch).(*filer_pb.FileChunk))
+	}
+	c.HardLinkId = append(filer.HardLinkId(nil), e.HardLinkId...)
+	c.Content = append([]byte(nil), e.Content...)
+	if e.Remote != nil {
+		c.Remote = proto.Clone(e.Remote).(*filer_pb.Entry_Remote)
+	}
+	return c
+}
+
+func fidString(f *filer_pb.FileId) string {
+	return needle.NewFileId(needle.VolumeId(f.VolumeId), f.FileKey, f.Cookie).String()
+}
+
+// expected is what the entry must read back as: a private copy with the chunk ids in
+// canonical string form (object forms cleared) and, through the store wrapper, the
+// octet-stream mime modelled as "" (the wrapper drops it).
+func expected(e *filer.Entry, viaWrapper bool) *filer.Entry {
+	w := copyEntry(e)
+	for _, c := range w.Chunks {
 		if c.FileId == "" && c.Fid != nil {
-			c.FileId = needle.NewFileId(needle.VolumeId(c.Fid.VolumeId), c.Fid.FileKey, c.Fid.Cookie).String()
+			c.FileId = fidString(c.Fid)
 		}
 		if c.SourceFileId == "" && c.SourceFid != nil {
-			c.SourceFileId = needle.NewFileId(needle.VolumeId(c.SourceFid.VolumeId), c.SourceFid.FileKey, c.SourceFid.Cookie).String()
+			c.SourceFileId = fidString(c.SourceFid)
 		}
 		c.Fid, c.SourceFid = nil, nil
 	}
-	if m.Attributes.Mime == "application/octet-stream" {
-		m.Attributes.Mime = ""
+	if viaWrapper && w.Mime == "application/octet-stream" {
+		w.Mime = ""
 	}
-	return m
-}
-
-func cloneEntry(e *filer.Entry) *filer.Entry {
-	c := filer.FromPbEntry("/", proto.Clone(e.ToProtoEntry()).(*filer_pb.Entry))
-	c.FullPath = e.FullPath
-	return c
+	return w
 }
 
 // ---------------------------------------------------------------- comparison
@@ -261,41 +283,59 @@ func chunkClassOf(n int) string {
 
 var objectFormOnly int64 // chunks that came back with the Fid object but an empty FileId string
 
-// compare returns "" when got (as returned by the store wrapper) equals want, else the
-// class of the first difference and a description.
-func compare(got *filer.Entry, wantPath util.FullPath, want *filer_pb.Entry) (field, msg string) {
+func strsEqual(a, b []string) bool {
+	if len(a) != len(b) {
+		return false
+	}
+	for i := range a {
+		if a[i] != b[i] {
+			return false
+		}
+	}
+	return true
+}
+
+// compare returns "" when got (as returned by the code under test) equals want field by
+// field, else the class of the first difference and a description. Times are compared at
+// second granularity (the stored type is seconds).
+func compare(got *filer.Entry, want *filer.Entry) (field, msg string) {
 	if got == nil {
 		return "nil-entry", "nil entry returned"
 	}
-	if got.FullPath != wantPath {
-		return "path", fmt.Sprintf("path %q want %q", got.FullPath, wantPath)
+	if got.FullPath != want.FullPath {
+		return "path", fmt.Sprintf("path %q want %q", got.FullPath, want.FullPath)
 	}
-	g := proto.Clone(got.ToProtoEntry()).(*filer_pb.Entry)
-	if len(g.Chunks) != len(want.Chunks) {
-		return "chunk-count", fmt.Sprintf("%d chunks want %d", len(g.Chunks), len(want.Chunks))
+	if len(got.Chunks) != len(want.Chunks) {
+		return "chunk-count", fmt.Sprintf("%d chunks want %d", len(got.Chunks), len(want.Chunks))
 	}
-	for i, c := range g.Chunks {
+	for i, gc := range got.Chunks {
 		w := want.Chunks[i]
+		c := proto.Clone(gc).(*filer_pb.FileChunk)
 		// The id may come back in string form, in object form, or both (FindEntry fills both,
 		// a native prefixed listing only the object form); every reader in the tree goes through
 		// GetFileIdString(), so that is "the file id that comes back".
 		if c.FileId == "" && c.Fid != nil {
 			objectFormOnly++
 		}
-		if id := c.GetFileIdString(); id != w.FileId {
+		id := c.FileId
+		if id == "" && c.Fid != nil {
+			id = fidString(c.Fid)
+		}
+		if id != w.FileId || gc.GetFileIdString() != w.FileId {
 			return "fileid-not-canonical", fmt.Sprintf("chunk %d file id %q want %q (fid object %v)", i, id, w.FileId, c.Fid)
 		}
-		if c.Fid != nil && c.FileId != "" {
-			if o := needle.NewFileId(needle.VolumeId(c.Fid.VolumeId), c.Fid.FileKey, c.Fid.Cookie).String(); o != w.FileId {
-				return "fileid-forms-disagree", fmt.Sprintf("chunk %d string form %q, object form %q", i, c.FileId, o)
-			}
+		if c.Fid != nil && c.FileId != "" && fidString(c.Fid) != w.FileId {
+			return "fileid-forms-disagree", fmt.Sprintf("chunk %d string form %q, object form %q", i, c.FileId, fidString(c.Fid))
 		}
 		src := c.SourceFileId
 		if src == "" && c.SourceFid != nil {
-			src = needle.NewFileId(needle.VolumeId(c.SourceFid.VolumeId), c.SourceFid.FileKey, c.SourceFid.Cookie).String()
+			src = fidString(c.SourceFid)
 		}
 		if src != w.SourceFileId {
 			return "source-fileid-not-canonical", fmt.Sprintf("chunk %d source file id %q want %q", i, src, w.SourceFileId)
+		}
+		if c.SourceFid != nil && c.SourceFileId != "" && fidString(c.SourceFid) != w.SourceFileId {
+			return "fileid-forms-disagree", fmt.Sprintf("chunk %d source string form %q, object form %q", i, c.SourceFileId, fidString(c.SourceFid))
 		}
 		c.FileId, c.SourceFileId = w.FileId, w.SourceFileId
 		c.Fid, c.SourceFid = nil, nil
@@ -303,31 +343,47 @@ func compare(got *filer.Entry, wantPath util.FullPath, want *filer_pb.Entry) (fi
 			return "chunk-fields", fmt.Sprintf("chunk %d %v want %v", i, c, w)
 		}
 	}
-	if !proto.Equal(g.Attributes, want.Attributes) {
-		return "attributes", fmt.Sprintf("attributes %v want %v", g.Attributes, want.Attributes)
+	g, w := got.Attr, want.Attr
+	switch {
+	case g.Mtime.Unix() != w.Mtime.Unix():
+		return "attributes", fmt.Sprintf("mtime %d want %d", g.Mtime.Unix(), w.Mtime.Unix())
+	case g.Crtime.Unix() != w.Crtime.Unix():
+		return "attributes", fmt.Sprintf("crtime %d want %d", g.Crtime.Unix(), w.Crtime.Unix())
+	case g.Mode != w.Mode:
+		return "attributes", fmt.Sprintf("mode %o want %o", uint32(g.Mode), uint32(w.Mode))
+	case g.Uid != w.Uid || g.Gid != w.Gid:
+		return "attributes", fmt.Sprintf("uid/gid %d/%d want %d/%d", g.Uid, g.Gid, w.Uid, w.Gid)
+	case g.Mime != w.Mime:
+		return "attributes", fmt.Sprintf("mime %q want %q", g.Mime, w.Mime)
+	case g.Replication != w.Replication || g.Collection != w.Collection || g.DiskType != w.DiskType:
+		return "attributes", fmt.Sprintf("replication/collection/disk %q/%q/%q want %q/%q/%q", g.Replication, g.Collection, g.DiskType, w.Replication, w.Collection, w.DiskType)
+	case g.TtlSec != w.TtlSec:
+		return "attributes", fmt.Sprintf("ttl %d want %d", g.TtlSec, w.TtlSec)
+	case g.UserName != w.UserName || !strsEqual(g.GroupNames, w.GroupNames):
+		return "attributes", fmt.Sprintf("user/groups %q/%q want %q/%q", g.UserName, g.GroupNames, w.UserName, w.GroupNames)
+	case g.SymlinkTarget != w.SymlinkTarget:
+		return "attributes", fmt.Sprintf("symlink target %q want %q", g.SymlinkTarget, w.SymlinkTarget)
+	case !bytes.Equal(g.Md5, w.Md5):
+		return "attributes", fmt.Sprintf("md5 %x want %x", g.Md5, w.Md5)
+	case g.FileSize != w.FileSize:
+		return "attributes", fmt.Sprintf("file size %d want %d", g.FileSize, w.FileSize)
 	}
-	if len(g.Extended) != len(want.Extended) {
-		return "extended", fmt.Sprintf("%d extended keys want %d", len(g.Extended), len(want.Extended))
+	if len(got.Extended) != len(want.Extended) {
+		return "extended", fmt.Sprintf("%d extended keys want %d", len(got.Extended), len(want.Extended))
 	}
 	for k, v := range want.Extended {
-		if gv, ok := g.Extended[k]; !ok || !bytes.Equal(gv, v) {
+		if gv, ok := got.Extended[k]; !ok || !bytes.Equal(gv, v) {
 			return "extended", fmt.Sprintf("extended[%q] = %x (present %v) want %x", k, gv, ok, v)
 		}
 	}
-	if !bytes.Equal(g.HardLinkId, want.HardLinkId) || g.HardLinkCounter != want.HardLinkCounter {
-		return "hardlink", fmt.Sprintf("hard link %x/%d want %x/%d", g.HardLinkId, g.HardLinkCounter, want.HardLinkId, want.HardLinkCounter)
+	if !bytes.Equal(got.HardLinkId, want.HardLinkId) || got.HardLinkCounter != want.HardLinkCounter {
+		return "hardlink", fmt.Sprintf("hard link %x/%d want %x/%d", got.HardLinkId, got.HardLinkCounter, want.HardLinkId, want.HardLinkCounter)
 	}
-	if !bytes.Equal(g.Content, want.Content) {
-		return "content", fmt.Sprintf("content %d bytes want %d bytes", len(g.Content), len(want.Content))
+	if !bytes.Equal(got.Content, want.Content) {
+		return "content", fmt.Sprintf("content %d bytes want %d bytes", len(got.Content), len(want.Content))
 	}
-	if !proto.Equal(g.Remote, want.Remote) {
-		return "remote", fmt.Sprintf("remote %v want %v", g.Remote, want.Remote)
-	}
-	if g.IsDirectory != want.IsDirectory || g.Name != want.Name {
-		return "name-or-dirflag", fmt.Sprintf("name %q dir %v want %q %v", g.Name, g.IsDirectory, want.Name, want.IsDirectory)
-	}
-	if !proto.Equal(g, want) {
-		return "other", "protobuf forms differ"
+	if (got.Remote == nil) != (want.Remote == nil) || (want.Remote != nil && !proto.Equal(got.Remote, want.Remote)) {
+		return "remote", fmt.Sprintf("remote %v want %v", got.Remote, want.Remote)
 	}
 	return "", ""
 }
@@ -335,7 +391,7 @@ func compare(got *filer.Entry, wantPath util.FullPath, want *filer_pb.Entry) (fi
 // ---------------------------------------------------------------- driver
 
 type rec struct {
-	want    *filer_pb.Entry
+	want    *filer.Entry
 	nchunks int
 	hl      bool
 	opIndex int
@@ -382,7 +438,7 @@ func (w *world) checkFind(op string, path util.FullPath, rc *rec) {
 		w.viol(op, class, rc, path, "FindEntry: "+err.Error())
 		return
 	}
-	if f, msg := compare(got, path, rc.want); f != "" {
+	if f, msg := compare(got, rc.want); f != "" {
 		w.viol(op, "differs-"+f, rc, path, msg)
 	}
 }
@@ -431,7 +487,7 @@ func (w *world) checkList(dir util.FullPath, mode string) {
 		}
 		w.r.Eval(1)
 		w.r.Count("entries_compared_in_listings", 1)
-		if f, msg := compare(got[gi], p, rc.want); f != "" {
+		if f, msg := compare(got[gi], rc.want); f != "" {
 			w.viol(mode, "differs-"+f, rc, p, msg)
 			return
 		}
@@ -443,8 +499,8 @@ func (w *world) checkList(dir util.FullPath, mode string) {
 }
 
 func (w *world) checkCodec(e *filer.Entry, nchunks int, withGzip bool) {
-	// raw codec round trip (no wrapper: chunk ids stay as given)
-	want := proto.Clone(e.ToProtoEntry()).(*filer_pb.Entry)
+	// raw codec round trip (no wrapper: nothing is rewritten)
+	want := expected(e, false)
 	b, err := e.EncodeAttributesAndChunks()
 	w.r.Eval(1)
 	if err != nil {
@@ -456,8 +512,8 @@ func (w *world) checkCodec(e *filer.Entry, nchunks int, withGzip bool) {
 		w.r.Violation(lib.Sig{"op": "codec", "class": "decode-error"}, map[string]interface{}{"op_index": w.ops, "store": w.kind, "seed": w.r.Seed, "tier": w.r.Tier, "msg": err.Error()})
 		return
 	}
-	if !proto.Equal(d.ToProtoEntry(), want) {
-		w.r.Violation(lib.Sig{"op": "codec", "class": "differs", "chunks": chunkClassOf(nchunks)}, map[string]interface{}{"op_index": w.ops, "store": w.kind, "seed": w.r.Seed, "tier": w.r.Tier, "msg": "Decode(Encode(entry)) differs"})
+	if f, msg := compare(d, want); f != "" {
+		w.r.Violation(lib.Sig{"op": "codec", "class": "differs-" + f, "chunks": chunkClassOf(nchunks)}, map[string]interface{}{"op_index": w.ops, "store": w.kind, "seed": w.r.Seed, "tier": w.r.Tier, "msg": "Decode(Encode(entry)) differs: " + msg})
 	}
 	// compression helpers on what the stores feed them: an encoded entry with > 50 chunks
 	if nchunks <= 50 || !withGzip {
@@ -508,9 +564,9 @@ func (w *world) runStore(nops int, stopAt int) {
 		n := pickChunkCount(rng)
 		e := genEntry(rng, path, n)
 		r.Case(map[string]interface{}{"store": w.kind, "op_index": w.ops, "update": update, "path": string(path), "chunks": n})
-		w.checkCodec(cloneEntry(e), n, rng.Intn(3) == 0)
-		want := expectedPb(e)
-		toStore := cloneEntry(e) // the wrapper rewrites chunk ids in place
+		w.checkCodec(copyEntry(e), n, rng.Intn(3) == 0)
+		want := expected(e, true)
+		toStore := copyEntry(e) // the wrapper rewrites chunk ids in place
 		var err error
 		if update {
 			err = w.store.UpdateEntry(ctx, toStore)
@@ -609,7 +665,7 @@ func main() {
 		stopAt, only = d.OpIndex, d.Store
 	}
 	initGzipPool(r.SubRng("c24-gzip-pool"))
-	nops := r.Pick(600, 6000) // per store: 1 800 / 18 000 entries written in total
+	nops := r.Pick(400, 4000) // per store: 1 200 / 12 000 entries written in total
 	if len(r.Args) == 2 && r.Args[0] == "store" {
 		only = r.Args[1] // child mode: one store per process, the three run in parallel
 	}
@@ -651,5 +707,5 @@ func main() {
 	}
 	r.Note("entries_written_total", sum("inserts")+sum("updates"))
 	pprof.StopCPUProfile()
-	r.Finish(r.Pick(1200, 9000))
+	r.Finish(r.Pick(800, 6000))
 }
